@@ -44,8 +44,8 @@ def lengths(mode, v, lvl):
     mx = C.max_count(mode, v, lvl)
     if mx < 0:
         return []
-    ls = set(range(0, 13)) | set(range(max(0, mx - 14), mx + 1))
-    return sorted(n for n in ls if n <= mx)
+    ls = set(range(0, 13)) | set(range(max(0, mx - 14), mx + 3))        # mx+1, mx+2: must be refused, never padded/cut
+    return sorted(n for n in ls if n <= mx + 2)
 
 
 def judge(qr, parts, v, lvl, acc, case, sa=None):
@@ -97,8 +97,15 @@ def one(v, lvl, mode, n, variant, acc):
     except C.REFUSALS as e:
         acc.eval(case, nontrivial=False, outcome='refused')
         acc.count('refused')
+        if n > C.max_count(mode, v, lvl):
+            return
         if n > 0:
             acc.violation('refused-fitting', 'content of %d %s characters fits %s-%s but was refused: %s' % (n, mode, v, lvl, str(e)[:60]), case)
+        return
+    if n > C.max_count(mode, v, lvl):
+        acc.eval(case, nontrivial=True, outcome='accepted-overflow', state=(v, lvl, 'overflow'))
+        acc.violation('overflow-accepted', '%d %s characters do not fit %s-%s but a symbol was returned: the last segment cannot be complete and terminated'
+                      % (n, mode, v, lvl), case)
         return
     judge(qr, [(mode, data, None)], v, lvl, acc, case)
     # the same content with error-level boosting (the default): padding must follow the level actually used
